@@ -332,7 +332,7 @@ inline int worker_main(Engine& eng, int argc, char** argv) {
 
     if (mode != "--gen") { std::fprintf(stderr, "usage: see core.hpp\n"); return 2; }
 
-    Stats st; std::uint64_t nviol = 0, nerr = 0;
+    Stats st; std::uint64_t nviol = 0, nerr = 0, nhangs = 0;
     std::map<std::string, std::uint64_t> sigcount;
     const std::uint64_t nsweep = no_sweep ? 0 : eng.sweep_count();
     std::uint64_t emitted_samples = 0;
@@ -361,6 +361,8 @@ inline int worker_main(Engine& eng, int argc, char** argv) {
             std::uint64_t& c = sigcount[key];
             if (c < 3 || until != ~0ull) emit_violation("V", i, seed, sweep, plan, rr);   // at most 3 full plans per signature per worker
             ++c;
+            // every hang costs its full time limit: after a few of them this worker has established the violation and stops early
+            if (rr.v.sig.size() > 1 && rr.v.sig[1] == "hang" && ++nhangs >= 6 && until == ~0ull) { std::printf("O worker stopped early after %llu hanging calls\n", (unsigned long long)nhangs); break; }
         }
         if (emitted_samples < samples && !rr.v.set && (sweep ? (i % 97 == 0) : true) ) {
             std::vector<std::string> lines; lines.push_back(plan.head.text()); for (auto& s : plan.steps) lines.push_back(s.text());
